@@ -252,6 +252,8 @@ def lit_text(lit):
 
 
 def cell_text(cell):
+    if cell.get('like') is not None:
+        return f'{cell["id"]} like {cell["like"]} but {cell["opts"]}'.strip()
     head = f'{cell["id"]} {cell["mat"]}'
     if cell['mat'] != 0:
         head += f' {cell["rho"]}'
@@ -341,12 +343,24 @@ def ctr(tr):
             f'{clist(cfloat(v) for v in mip_tr_entries(tr))})')
 
 
-def ccell(cell):
+def resolve_like(cell, deck):
+    '''(literals, complements, option string) of a cell, LIKE n BUT resolved
+    the way parse_one_cell/apply_but does: geometry of n, options of n
+    followed by the BUT options.'''
+    if cell.get('like') is None:
+        return cell['lits'], cell['compl'], cell['opts']
+    base = [c for c in deck['cells'] if c['id'] == cell['like']][0]
+    lits, compl, opts = resolve_like(base, deck)
+    return lits, compl, opts + ' ' + cell['opts']
+
+
+def ccell(cell, deck):
+    lits, compl, opts = resolve_like(cell, deck)
     lits = clist(f'(mkLit {cz(abs(sid))} {copt(facet, cnat)})'
-                 for sid, facet in cell['lits'])
+                 for sid, facet in lits)
     return (f'(mkCellc {cz(cell["id"])} {lits} '
-            f'{clist(cz(c) for c in cell["compl"])} '
-            f'{clist(ctok(t) for t in opt_tokens(cell["opts"]))})')
+            f'{clist(cz(c) for c in compl)} '
+            f'{clist(ctok(t) for t in opt_tokens(opts))})')
 
 
 def imp_tokens(name, toks):
@@ -361,7 +375,7 @@ def cdeck(deck):
             + clist(ctr(t) for t in deck['trs']) + '\n    '
             + clist(clist(ctok(t) for t in imp_tokens(n, toks))
                     for n, toks in deck['impcards']) + '\n    '
-            + clist(ccell(c) for c in deck['cells']) + '\n    '
+            + clist(ccell(c, deck) for c in deck['cells']) + '\n    '
             + clist(clist(cstr(t) for t in toks) for _, toks in deck['mats'])
             + ' ' + cbool(bool(deck.get('skipcomp'))) + ')')
 
@@ -413,7 +427,7 @@ def gen_valid_deck(rng, features=None):
     {'tr', 'surftr', 'fill', 'filltr', 'lat', 'latopt', 'trcl', 'impcards',
     'facets', 'compl', 'mats'}; None = random subset.'''
     allf = ['tr', 'surftr', 'fill', 'filltr', 'lat', 'latopt', 'trcl',
-            'impcards', 'facets', 'compl', 'mats']
+            'impcards', 'facets', 'compl', 'mats', 'like']
     if features is None:
         features = {f for f in allf if rng.random() < 0.5}
     features = set(features)
@@ -492,6 +506,33 @@ def gen_valid_deck(rng, features=None):
         else:
             _, entries = tr_entries(rng, 12, star=True)
             cell['opts'] = '*trcl=(' + ' '.join(num(v) for v in entries) + ')'
+    if 'like' in features:
+        kinds = {s['id']: s['mn'] for s in deck['surfs']}
+        bases = [c for c in cells
+                 if not c['opts'] and c['lits'] and not c['compl']
+                 and all(kinds[abs(l[0])] not in ('sq', 'gq', 'tx', 'ty', 'tz')
+                         for l in c['lits'])]
+        if bases:
+            base_cell = rng.choice(bases)
+            hows = ['three', 'star12']
+            if trids:
+                hows.append('num')
+            if mats:
+                hows.append('mat')
+            how = rng.choice(hows)
+            if how == 'three':
+                but = 'trcl=(' + ' '.join(num(_c(rng)) for _ in range(3)) + ')'
+            elif how == 'star12':
+                _, entries = tr_entries(rng, 12, star=True)
+                but = '*trcl=(' + ' '.join(num(v) for v in entries) + ')'
+            elif how == 'num':
+                but = f'trcl={rng.choice(trids)}'
+            else:
+                but = f'mat={rng.choice(sorted(mats))} rho=-1.5 trcl=(0 0 {num(_r(rng) + 20)})'
+            cid += rng.choice([1, 1, 3])
+            cells.append({'id': cid, 'mat': 0, 'rho': None, 'lits': [],
+                          'compl': [], 'opts': but, 'imp': 1,
+                          'like': base_cell['id']})
     next_u = 1
     if 'fill' in features or 'filltr' in features:
         univ = next_u
@@ -593,7 +634,8 @@ def gen_valid_deck(rng, features=None):
             deck['impcards'].append(['imp:p', [str(c['imp']) for c in cells]])
     else:
         for cell in cells:
-            cell['opts'] = (cell['opts'] + f' imp:n={cell["imp"]}').strip()
+            if cell.get('like') is None:
+                cell['opts'] = (cell['opts'] + f' imp:n={cell["imp"]}').strip()
     deck['cells'] = cells
     deck['features'] = sorted(features)
     return deck
@@ -720,6 +762,22 @@ def f_inline_trcl_m(deck, rng, star=False):
 
 def f_inline_trcl_m_star(deck, rng):
     return f_inline_trcl_m(deck, rng, star=True)
+
+
+def f_like_trcl_m(deck, rng):
+    '''LIKE n BUT TRCL=(13 entries, m != 1), starred or not.'''
+    out = []
+    for k, cell0 in enumerate(deck['cells']):
+        if cell0.get('like') is None:
+            continue
+        d = _clone(deck)
+        cell = d['cells'][k]
+        star = rng.random() < 0.5
+        entries = (_angles12(rng) if star else _twelve(rng)) + [-1]
+        cell['opts'] = ('*' if star else '') + 'trcl=(' + ' '.join(
+            num(v) for v in entries) + ')'
+        out.append((d, f'cell {cell["id"]} like {cell["like"]}'))
+    return out
 
 
 def _lat_cells(deck):
@@ -1157,6 +1215,7 @@ FAULTS = {
     'inline_fill_m_star': (f_inline_fill_m_star, ['fill']),
     'inline_trcl_m': (f_inline_trcl_m, []),
     'inline_trcl_m_star': (f_inline_trcl_m_star, []),
+    'like_trcl_m': (f_like_trcl_m, ['like']),
     'lattice_no_opt': (f_lattice_no_opt, ['lat']),
     'lattice_dims': (f_lattice_dims, ['lat']),
     'lattice_trailing': (f_lattice_trailing, ['lat']),
